@@ -354,6 +354,54 @@ def spec_effect(prog, e, segs, fn, ty, name, rep, roles, has_loops):
     return True
 
 
+FIELD_ROLES = {
+    # type -> field type prefix -> roles a stored TinyAsciiStr may have
+    'UnicodeExtensionList': {'std::vec::Vec<': ('uattr',), 'std::collections::BTreeMap<': ('ukey', 'utype')},
+    'TransformExtensionList': {'std::collections::BTreeMap<': ('tkey', 'tvalue')},
+    'PrivateExtensionList': {'std::vec::Vec<': ('privatetag',)},
+}
+
+
+def generic_provenance(prog, e, segs, fn, ty, rep, roles, has_loops, recv=1):
+    """TS-PROV for a writer without an effect specification: no text reaches the extension lists without its role's validator"""
+    b = prog.bodies[fn]
+    fr = FIELD_ROLES.get(ty)
+    if not fr:
+        return
+    fs = terms.struct_fields(prog.facts, ty) or []
+    sig = b.get('sig') or {'inputs': []}
+    rawparams = set(i + 1 for i, t in enumerate(sig['inputs']) if re.search(r'TinyAsciiStr|\[u8\]|\bstr\b|Vec<|BTreeMap<', t) and i + 1 != recv)
+    bad = []
+    neff = 0
+    for s in segs:
+        if s.kind != 'return':
+            continue
+        for fp, op, args, ev in effects_of(e, s, has_loops):
+            if not fp or not isinstance(fp[0], int) or fp[0] >= len(fs):
+                continue
+            fty = terms.norm_ty(fs[fp[0]]['ty'])
+            rl = None
+            for pref, r in fr.items():
+                if fty.startswith(pref):
+                    rl = r
+            if rl is None:
+                continue
+            neff += 1
+            if op.startswith('opaque:'):
+                bad.append('INCONCLUSIVE(%s is handed to the helper %s)' % (fs[fp[0]]['name'], op[7:]))
+                continue
+            if op in ('clear', 'remove', 'retain', 'sort', 'sort_unstable', 'dedup', 'pop', 'truncate', 'take', 'swap_remove', 'drain', 'reverse'):
+                continue
+            for a in args:
+                for t in terms.find_terms(a, lambda t: t[0] == 'tiny'):
+                    if all(mu.validated_shape(e, s.state, t, r, roles, shapes=s.shapes) for r in rl):
+                        bad.append('%s stores text that is not validated as %s: %s' % (op, ' / '.join(rl), e.short(t, 100)))
+                for t in terms.find_terms(a, lambda t: t[0] == 'param' and t[1] in rawparams):
+                    bad.append('%s stores (part of) argument %d without validation' % (op, t[1]))
+    rep.ob('prov:%s::%s' % (ty, fn.split('::')[-1]), 'TS-PROV', fn, b['span'], '%s::%s stores only text validated for its role' % (ty, fn.split('::')[-1]), not bad,
+           detail='\n'.join(sorted(set(bad))[:4]), how='%d effects on text-carrying fields' % neff)
+
+
 def local_vector_of_validated(prog, e, segs, v, role, roles, bad):
     """alternative idiom for the values of a map insertion: a local vector filled by a loop over the values argument, every push
     being the validated (and not 'true') element; -> True when `v` is such a vector (problems appended to bad)"""
@@ -632,6 +680,9 @@ def mutator_obligations(rep, cfgs=('K0', 'K1'), with_getters=True):
                 mu.check_invariants_method(prog, e, segs, fn, ty, inv, rep, keybase)
             if cfg == 'K0' and spec_effect(prog, e, segs, fn, ty, name, rep, roles, has_loops):
                 n_effect += 1
+            elif cfg == 'K0':
+                # a mutator the model has no effect specification for: whatever it stores must still be validated text of the field's role
+                generic_provenance(prog, e, segs, fn, ty, rep, roles, has_loops)
         other_writer_obligations(prog, rep, allinv)
         raw_ctor_callers(prog, rep, allinv)
         if cfg == 'K0':
